@@ -1,6 +1,7 @@
 package main
 
 import (
+	"go/types"
 	"fmt"
 	"go/ast"
 	"go/token"
@@ -269,7 +270,7 @@ func checkC15(p *Prog, r *Report) {
 							if kv, ok := raddr.(*ast.KeyValueExpr); ok {
 								raddr = kv.Value
 							}
-							if id, ok := unparen(first).(*ast.Ident); ok && id.Name == "firstPacketData" {
+							if id, ok := unparen(first).(*ast.Ident); ok && p.ObjOf(id) == p.paramObj(addConn, 1) {
 								if c, ok := unparen(raddr).(*ast.CallExpr); ok && p.CalleeName(c) == "net.Conn.RemoteAddr" {
 									found = true
 								}
@@ -287,7 +288,7 @@ func checkC15(p *Prog, r *Report) {
 				}
 				for _, ft := range p.FactsOfCond(e.Cond, e.Val) {
 					if ft.Op == "==" && ft.Val && p.isNilExpr(ft.Y) {
-						if id, ok := unparen(ft.X).(*ast.Ident); ok && id.Name == "firstPacketData" {
+						if id, ok := unparen(ft.X).(*ast.Ident); ok && p.ObjOf(id) == p.paramObj(addConn, 1) {
 							return false
 						}
 					}
@@ -501,14 +502,15 @@ func checkC15(p *Prog, r *Report) {
 	r.Rule("R15.4", "A packet connection created from a first frame gets the configured lifetime and closes itself when it expires; one created through GetConnByUfrag gets none, and claiming an existing connection through GetConnByUfrag stops the timer; the timer is armed only by the constructor and otherwise only ever stopped.", 7)
 	if f := p.Fn("TCPMuxDefault.createConn"); r.Anchor("TCPMuxDefault.createConn", f != nil) {
 		ok := false
-		for _, st := range p.DefsOfName(f, "alive") {
-			if st.Rhs != nil && p.MentionsField(st.Rhs, "TCPMuxParams.AliveDurationForConnFromStun") {
-				facts, _ := p.FactsAtCall(f, st.Node)
-				if facts.Has(func(ft Fact) bool {
-					id, isID := unparen(ft.X).(*ast.Ident)
-					return ft.Op == "truth" && ft.Val && isID && id.Name == "fromStun"
-				}) {
-					ok = true
+		aliveObj := p.localByDef(f, func(rhs ast.Expr) bool { return p.MentionsField(rhs, "TCPMuxParams.AliveDurationForConnFromStun") })
+		fromStun := p.paramObj(f, 3)
+		if aliveObj != nil {
+			for _, st := range p.DefsOf(f, aliveObj) {
+				if st.Rhs != nil && p.MentionsField(st.Rhs, "TCPMuxParams.AliveDurationForConnFromStun") {
+					facts, _ := p.FactsAtCall(f, st.Node)
+					if facts.Has(func(ft Fact) bool { return ft.Op == "truth" && ft.Val && p.isObj(ft.X, fromStun) }) {
+						ok = true
+					}
 				}
 			}
 		}
@@ -516,10 +518,8 @@ func checkC15(p *Prog, r *Report) {
 		for _, c := range p.CallsTo(f, false, "ice.newTCPPacketConn") {
 			ast.Inspect(c, func(n ast.Node) bool {
 				if kv, isKV := n.(*ast.KeyValueExpr); isKV {
-					if id, isID := kv.Key.(*ast.Ident); isID && id.Name == "AliveDuration" {
-						if v, isV := unparen(kv.Value).(*ast.Ident); isV && v.Name == "alive" {
-							passed = true
-						}
+					if id, isID := kv.Key.(*ast.Ident); isID && id.Name == "AliveDuration" && p.isObj(kv.Value, aliveObj) {
+						passed = true
 					}
 				}
 				return true
@@ -550,8 +550,11 @@ func checkC15(p *Prog, r *Report) {
 		for _, c := range p.CallsTo(f, false, "ice.tcpPacketConn.ClearAliveTimer") {
 			facts, _ := p.FactsAtCall(f, c)
 			if facts.Has(func(ft Fact) bool {
-				id, isID := unparen(ft.X).(*ast.Ident)
-				return ft.Op == "truth" && ft.Val && isID && id.Name == "ok"
+				if ft.Op != "truth" || !ft.Val {
+					return false
+				}
+				gc, idx, isCall := p.ResolveCall(f, ft.X)
+				return isCall && idx == 1 && p.CalleeName(gc) == "ice.TCPMuxDefault.getConn"
 			}) {
 				ok = true
 			}
@@ -661,15 +664,17 @@ func checkC15(p *Prog, r *Report) {
 			r.Check(del, "RemoveConnByUfrag unregisters "+fld, p.Pos(f.Body.Pos()), "delete(table, ufrag)", "the "+fld+" entry of the ufrag survives removal")
 		}
 		okClose := false
+		var collected types.Object
 		walkBody(f, func(n ast.Node) bool {
 			rs, isR := n.(*ast.RangeStmt)
 			if !isR {
 				return true
 			}
 			id, isID := unparen(rs.X).(*ast.Ident)
-			if !isID || id.Name != "removedConns" {
+			if !isID || typeStr(p.TypeOf(id)) != "[]*ice.tcpPacketConn" {
 				return true
 			}
+			collected = p.ObjOf(id)
 			for _, c := range p.NodeCallsDeep(rs.Body) {
 				if p.CalleeName(c) == "ice.TCPMuxDefault.closeAndLogError" && len(p.HeldAt(f, c)) == 0 {
 					okClose = true
@@ -680,7 +685,7 @@ func checkC15(p *Prog, r *Report) {
 		n := 0
 		for _, c := range p.CallsTo(f, false, "builtin.append") {
 			if len(c.Args) >= 1 {
-				if id, ok := unparen(c.Args[0]).(*ast.Ident); ok && id.Name == "removedConns" {
+				if p.isObj(c.Args[0], collected) {
 					n++
 				}
 			}
